@@ -28,14 +28,29 @@ fn c_ad(a: &AD) -> String { match a { AD::FilterEven => "DFilterEven".into(), AD
 struct Counting<I> { it: I, n: Rc<Cell<usize>> }
 impl<I: Iterator> Iterator for Counting<I> { type Item = I::Item; fn next(&mut self) -> Option<I::Item> { self.n.set(self.n.get() + 1); self.it.next() } }
 
+/// a user-level Source that hands over several items per step and may fail at the end of a step
+/// (the shape of the Rio parser adapters: one parse_step = one statement = 0..n triples)
+struct BatchSource { steps: std::collections::VecDeque<(Vec<u64>, Option<u64>)>, n: Rc<Cell<usize>> }
+impl Source for BatchSource {
+    type Item<'x> = u64;
+    type Error = MyErr;
+    fn try_for_some_item<E, F>(&mut self, mut f: F) -> Result<bool, StreamError<MyErr, E>>
+    where E: std::error::Error + Send + Sync + 'static, F: FnMut(u64) -> Result<(), E> {
+        let Some((items, oe)) = self.steps.pop_front() else { return Ok(false) };
+        self.n.set(self.n.get() + 1);
+        for x in items { f(x).map_err(StreamError::SinkError)?; }
+        match oe { Some(e) => Err(StreamError::SourceError(MyErr(e))), None => Ok(true) }
+    }
+}
+
 #[derive(Clone, Debug, PartialEq)]
 enum Outc { Done, Source(u64), Sink(u64) }
 #[derive(Clone, Debug, PartialEq)]
-struct Obs { trace: Vec<u64>, out: Outc, pulled: usize }
+struct Obs { trace: Vec<u64>, out: Outc, pulled: usize, drained: Vec<Result<u64, u64>> }
 fn c_outc(o: &Outc) -> String { match o { Outc::Done => "KDone".into(), Outc::Source(e) => format!("(KSource {e})"), Outc::Sink(e) => format!("(KSink {e})") } }
 
 #[derive(Clone, Copy, Debug)]
-enum Mode { TryEach, Stepwise, ForEach }
+enum Mode { TryEach, Stepwise, ForEach, IterMap, IterFilterMap }
 struct Cons { mode: Mode, fault: Option<(usize, u64)>, counter: Rc<Cell<usize>> }
 impl Cons {
     fn run<S>(self, mut s: S) -> Obs where S: Source<Error = MyErr>, for<'x> S: Source<Item<'x> = u64> {
@@ -49,10 +64,12 @@ impl Cons {
                 }
             },
             Mode::ForEach => s.for_each_item(|x| trace.push(x)).map_err(StreamError::SourceError),
+            Mode::IterMap => { let drained: Vec<Result<u64, u64>> = s.map_items(|x: u64| x).into_iter().map(|r| r.map_err(|e| e.0)).collect(); return Obs { trace, out: Outc::Done, pulled: self.counter.get(), drained } }
+            Mode::IterFilterMap => { let drained: Vec<Result<u64, u64>> = s.filter_map_items(|x: u64| Some(x)).into_iter().map(|r| r.map_err(|e| e.0)).collect(); return Obs { trace, out: Outc::Done, pulled: self.counter.get(), drained } }
         };
         let out = match res { Ok(()) => Outc::Done, Err(StreamError::SourceError(e)) => Outc::Source(e.0), Err(StreamError::SinkError(e)) => Outc::Sink(e.0) };
         // Done is only observed after the source returned None once more; normalise pulled to elements, not next() calls
-        Obs { trace, out, pulled: self.counter.get() }
+        Obs { trace, out, pulled: self.counter.get(), drained: vec![] }
     }
 }
 fn lvl0<S>(s: S, chain: &[AD], c: Cons) -> Obs where S: Source<Error = MyErr>, for<'x> S: Source<Item<'x> = u64> { assert!(chain.is_empty()); c.run(s) }
@@ -70,16 +87,22 @@ macro_rules! level { ($name:ident, $next:ident) => {
 }; }
 level!(lvl1, lvl0); level!(lvl2, lvl1); level!(lvl3, lvl2);
 
-fn oracle(src: &[Result<u64, u64>], chain: &[AD], fault: Option<(usize, u64)>) -> Obs {
+type Steps = Vec<(Vec<u64>, Option<u64>)>;
+fn of_results(src: &[Result<u64, u64>]) -> Steps { src.iter().map(|r| match r { Ok(x) => (vec![*x], None), Err(e) => (vec![], Some(*e)) }).collect() }
+fn oracle(src: &Steps, chain: &[AD], fault: Option<(usize, u64)>) -> Obs {
     let mut trace = vec![];
-    for (i, r) in src.iter().enumerate() {
-        match r {
-            Err(e) => return Obs { trace, out: Outc::Source(*e), pulled: i + 1 },
-            Ok(x) => if let Some(y) = through(chain, *x) { trace.push(y); if let Some((j, e)) = fault { if trace.len() == j + 1 { return Obs { trace, out: Outc::Sink(e), pulled: i + 1 } } } }
-        }
+    for (i, (items, oe)) in src.iter().enumerate() {
+        for x in items { if let Some(y) = through(chain, *x) { trace.push(y); if let Some((j, e)) = fault { if trace.len() == j + 1 { return Obs { trace, out: Outc::Sink(e), pulled: i + 1, drained: vec![] } } } } }
+        if let Some(e) = oe { return Obs { trace, out: Outc::Source(*e), pulled: i + 1, drained: vec![] } }
     }
-    Obs { trace, out: Outc::Done, pulled: src.len() }
+    Obs { trace, out: Outc::Done, pulled: src.len(), drained: vec![] }
 }
+fn oracle_drain(src: &Steps, chain: &[AD]) -> Vec<Result<u64, u64>> {
+    let mut out = vec![];
+    for (items, oe) in src { for x in items { if let Some(y) = through(chain, *x) { out.push(Ok(y)) } } if let Some(e) = oe { out.push(Err(*e)) } }
+    out
+}
+fn c_steps(src: &Steps) -> String { coq_list(src.iter().map(|(items, oe)| format!("({}, {})", coq_list(items.iter().map(|x| x.to_string())), match oe { Some(e) => format!("Some {e}"), None => "None".into() }))) }
 
 // ---------- triple flavour ----------
 fn tr(n: u64) -> [ST; 3] { [iri("http://e/s"), iri("http://e/p"), lit_dt(&n.to_string(), &format!("{XSD}integer"))] }
@@ -110,30 +133,50 @@ non-trivial = a fault is actually hit after at least one item was consumed, or a
         let mut r = base.fork(idx as u64);
         let flavour = idx % 4; // 0,1,2: generic pipeline; 3: triple-level
         if flavour != 3 {
+            let batch = r.chance(1, 2);
             let len = r.below(8);
-            let mut src: Vec<Result<u64, u64>> = (0..len).map(|_| Ok(r.below(10) as u64)).collect();
-            let src_fault = r.chance(1, 2);
-            if src_fault { let k = r.below(len + 1); src.insert(k, Err(100 + r.below(50) as u64)); }
+            let steps: Steps = if batch {
+                (0..r.below(6)).map(|_| ((0..r.below(4)).map(|_| r.below(10) as u64).collect(), if r.chance(1, 5) { Some(100 + r.below(50) as u64) } else { None })).collect()
+            } else {
+                let mut src: Vec<Result<u64, u64>> = (0..len).map(|_| Ok(r.below(10) as u64)).collect();
+                if r.chance(1, 2) { let k = r.below(len + 1); src.insert(k, Err(100 + r.below(50) as u64)); }
+                of_results(&src)
+            };
             let depth = r.below(4);
             let chain: Vec<AD> = (0..depth).map(|_| *r.pick(&all_ads)).collect();
-            let mode = *r.pick(&[Mode::TryEach, Mode::Stepwise, Mode::ForEach]);
-            let fault = if matches!(mode, Mode::ForEach) || r.chance(1, 3) { None } else { Some((r.below(5), 200 + r.below(50) as u64)) };
+            let mode = *r.pick(&[Mode::TryEach, Mode::Stepwise, Mode::ForEach, Mode::IterMap, Mode::IterFilterMap]);
+            let fault = if !matches!(mode, Mode::TryEach | Mode::Stepwise) || r.chance(1, 3) { None } else { Some((r.below(5), 200 + r.below(50) as u64)) };
             let counter = Rc::new(Cell::new(0));
-            let it = Counting { it: src.clone().into_iter().map(|x| x.map_err(MyErr)), n: counter.clone() };
-            let obs0 = lvl3(it, &chain, Cons { mode, fault, counter: counter.clone() });
-            let exp = oracle(&src, &chain, fault);
-            // next() is called once more than elements exist when the stream ends normally
-            let obs = Obs { pulled: if obs0.out == Outc::Done { obs0.pulled - 1 } else { obs0.pulled }, ..obs0 };
-            let text = format!("src={src:?} chain={chain:?} mode={mode:?} sink_fault={fault:?}");
+            let cons = Cons { mode, fault, counter: counter.clone() };
+            let obs0 = if batch { lvl3(BatchSource { steps: steps.clone().into(), n: counter.clone() }, &chain, cons) } else {
+                let flat: Vec<Result<u64, MyErr>> = steps.iter().map(|(i, e)| match e { Some(e) => Err(MyErr(*e)), None => Ok(i[0]) }).collect();
+                lvl3(Counting { it: flat.into_iter(), n: counter.clone() }, &chain, cons) };
+            let text = format!("source={} steps={steps:?} chain={chain:?} mode={mode:?} sink_fault={fault:?}", if batch { "batching" } else { "iterator" });
+            if matches!(mode, Mode::IterMap | Mode::IterFilterMap) {
+                let exp = oracle_drain(&steps, &chain);
+                if a.only.is_some() { println!("CASE {idx}: {text}\nIMPL   {:?}\nORACLE {exp:?}", obs0.drained); }
+                if obs0.drained != exp { sum.oracle_failures.push((idx.to_string(), format!("into_iter {text}: implementation yields {:?}, expected {exp:?}", obs0.drained))); }
+                let nontrivial = exp.iter().any(|x| x.is_err()) && exp.iter().any(|x| x.is_ok());
+                if seen.insert(text.clone()) && nontrivial { sum.distinct_nontrivial += 1; }
+                sum.bump(&format!("mode:{mode:?}")); sum.bump(if batch { "source:batching" } else { "source:iterator" });
+                let mut mchain: Vec<String> = chain.iter().map(c_ad).collect(); mchain.push("DFilterAll".into());
+                cases.push((idx, format!("drain_ok {} {} {}", c_steps(&steps), coq_list(mchain), coq_list(obs0.drained.iter().map(|x| match x { Ok(v) => format!("inl {v}"), Err(e) => format!("inr {e}") })))));
+                sum.evaluations += 1;
+                continue;
+            }
+            let exp = oracle(&steps, &chain, fault);
+            // an iterator is asked once more than it has elements when the stream ends normally
+            let obs = Obs { pulled: if !batch && obs0.out == Outc::Done { obs0.pulled - 1 } else { obs0.pulled }, ..obs0 };
             if a.only.is_some() { println!("CASE {idx}: {text}\nIMPL   {obs:?}\nORACLE {exp:?}"); }
             if obs != exp { sum.oracle_failures.push((idx.to_string(), format!("pipeline {text}: implementation {obs:?}, expected {exp:?}"))); }
-            let nontrivial = (exp.out != Outc::Done && !exp.trace.is_empty()) || exp.trace.len() < src.iter().filter(|x| x.is_ok()).count();
+            let n_ok: usize = steps.iter().map(|s| s.0.len()).sum();
+            let nontrivial = (exp.out != Outc::Done && !exp.trace.is_empty()) || exp.trace.len() < n_ok;
             if seen.insert(text.clone()) && nontrivial { sum.distinct_nontrivial += 1; }
-            sum.bump(&format!("depth:{depth}")); sum.bump(&format!("mode:{mode:?}")); sum.bump(&format!("outcome:{}", match exp.out { Outc::Done => "done", Outc::Source(_) => "source-error", Outc::Sink(_) => "sink-error" }));
+            sum.bump(&format!("depth:{depth}")); sum.bump(&format!("mode:{mode:?}")); sum.bump(if batch { "source:batching" } else { "source:iterator" });
+            sum.bump(&format!("outcome:{}", match exp.out { Outc::Done => "done", Outc::Source(_) => "source-error", Outc::Sink(_) => "sink-error" }));
             if sum.samples.len() < 3 && nontrivial { sum.samples.push(format!("case {idx}: {text} => {obs:?}")); }
-            let c_src = coq_list(src.iter().map(|x| match x { Ok(v) => format!("inl {v}"), Err(e) => format!("inr {e}") }));
             let c_fault = match fault { None => "None".to_string(), Some((j, e)) => format!("(Some ({j}%nat, {e}))") };
-            cases.push((idx, format!("run_rec_ok {c_src} {} {c_fault} {} {} {}", coq_list(chain.iter().map(c_ad)), coq_list(obs.trace.iter().map(|x| x.to_string())), c_outc(&obs.out), obs.pulled)));
+            cases.push((idx, format!("run_rec_ok {} {} {c_fault} {} {} {}", c_steps(&steps), coq_list(chain.iter().map(c_ad)), coq_list(obs.trace.iter().map(|x| x.to_string())), c_outc(&obs.out), obs.pulled)));
         } else {
             // triple-level: items are triples (s, p, "n"^^xsd:integer)
             let len = r.below(7);
@@ -225,7 +268,7 @@ non-trivial = a fault is actually hit after at least one item was consumed, or a
             if seen.insert(text.clone()) && (exp_out != Outc::Done || cnt > 0) { sum.distinct_nontrivial += 1; }
             sum.bump(&format!("source:{}", ["iterator", "nt-parser", "store"][source_kind])); sum.bump(&format!("sink:{}", ["insert_all", "remove_all", "collect", "serializer"][sink_kind]));
             if sum.samples.len() < 5 && exp_out != Outc::Done { sum.samples.push(format!("case {idx}: {text} => content={c_sorted:?} count={count} {out:?}")); }
-            let c_src = coq_list(src_model.iter().map(|x| match x { Ok(v) => format!("inl {v}"), Err(e) => format!("inr {e}") }));
+            let c_src = format!("(of_results {})", coq_list(src_model.iter().map(|x| match x { Ok(v) => format!("inl {v}"), Err(e) => format!("inr {e}") })));
             let c_chain = coq_list(chain.iter().map(c_ad));
             let c_init = coq_list(init_eff.iter().map(|x| x.to_string()));
             let c_content = coq_list(content.iter().map(|x| x.to_string()));
